@@ -175,6 +175,11 @@ def anomaliser(rng, p, dense_events):
         inner, nmin = S("ScriptedChangeDetector", changepoints=cp), 2
     lo = float(_choice(rng, [-1.0, -0.3, 0.0, 0.5]))
     hi = lo + float(_choice(rng, [0.0, 0.3, 1.0, 2.5]))
+    u = rng.random()
+    if u < 0.12:
+        lo = float("-inf")  # one-sided: only the upper bound counts
+    elif u < 0.24:
+        hi = float("inf")
     return S("StatThresholdAnomaliser", change_detector=inner,
              stat={"fn": _choice(rng, ["np.mean", "np.median", "stat_range", "stat_first", "stat_std1"])},
              stat_lower=lo, stat_upper=hi), nmin
